@@ -1,6 +1,7 @@
 package sbom
 
 import (
+	"slices"
 	"sort"
 	"strings"
 )
@@ -244,7 +245,7 @@ func (e *Edge) Equal(e2 *Edge) bool {
 // flatString returns a serialized representation of the edge as a string,
 // suitable for indexing or comparison of the contents of the current edge.
 func (e *Edge) flatString() string {
-	tos := e.To
+	tos := slices.Clone(e.To)
 	sort.Strings(tos)
 	return e.From + ":" + e.Type.String() + ":" + strings.Join(tos, "+")
 }
